@@ -165,10 +165,11 @@ func isMarker(data []byte) (name string, after []byte) {
 	}
 	if i := bytes.IndexByte(data, '\n'); i >= 0 {
 		data, after = data[:i], data[i+1:]
-		if data[i-1] == '\r' {
-			data = data[:len(data)-1]
-		}
 	}
+	// A marker line may end in CRLF. A final line that is missing its
+	// newline is treated as if the newline were present, so strip the
+	// carriage return there too.
+	data = bytes.TrimSuffix(data, []byte("\r"))
 	if !bytes.HasSuffix(data, markerEnd) || len(data) < len(marker)+len(markerEnd) {
 		return "", nil
 	}
